@@ -44,6 +44,31 @@ CHECKS["C19"] = dict(
     design="DESIGN.md §3 C19",
 )
 
+CHECKS["C04"] = dict(
+    level="exploration",
+    engine="direct",
+    technique="exhaustive enumeration to a depth bound + property-based testing (Hypothesis) against an independent reference model of the TOAST projection (RefToast, unit vectors); differential between the four construction routes; metamorphic area relations",
+    text="All tiles of every level to depth 6 (quick) / 8 (thorough) in both coordinate systems are compared corner by corner with an independently written model of the documented layout, plus direct structure checks on toasty's own output (shared vertices, nesting, great-circle edges) and area relations; the filtered, single-tile and point-lookup routes are sampled to depth 24.",
+    note="Trusts RefToast (vt/reftoast.py, ~150 lines written from the module docstring); tolerance 1e-12+1e-14*depth rad on unit vectors.",
+    design="DESIGN.md §3 C04, §2.5",
+)
+CHECKS["C05"] = dict(
+    level="exploration",
+    engine="direct",
+    technique="exhaustive enumeration of tiles to a depth bound (all 65536 pixels each) + Hypothesis-sampled deep tiles, against RefToast pixel centres; differential with the Python-side subdivision route",
+    text="Every pixel of every tile to depth 3 (quick) / 5 (thorough) and of generated tiles to depth 16, in both systems evaluated in one process, equals the reference centre of the tile 8 levels deeper, lies inside its tile and inside the corners' latitude range.",
+    note="Trusts RefToast; the compiled subdivision is checked as built (.so), see assumptions in the evidence.",
+    design="DESIGN.md §3 C05",
+)
+CHECKS["C12"] = dict(
+    level="exploration",
+    engine="direct",
+    technique="property-based testing (Hypothesis) with structural point generators (vertices, edges, seam, poles, shifted longitudes) against RefToast point-in-tile and nearest-pixel oracles; metamorphic relation lon -> lon+2*pi*k; nesting invariant across depths",
+    text="Generated points x depth x coordinate system: returned tile contains the point (reference geometry), lookups nest across depths and are 2*pi-periodic; fractional pixel within 2 px of the angularly nearest reference pixel centre for points >= 1 degree from the poles. Held on everything explored after two fixes this check motivated.",
+    note="Trusts RefToast; containment tolerance 1e-9 rad; points within tolerance of a shared edge may resolve to either tile.",
+    design="DESIGN.md §3 C12",
+)
+
 NOT_APPLICABLE = {}
 
 
